@@ -66,7 +66,7 @@ class CascadeChecker:
     @staticmethod
     def _verify_sig(pub_key_bits, sig_ptrs) -> bool:
         if sig_ptrs.signature_info.signature_type == SignatureType.HMAC_WITH_SHA256:
-            verify_hmac(pub_key_bits, sig_ptrs)
+            return verify_hmac(pub_key_bits, sig_ptrs)
         elif sig_ptrs.signature_info.signature_type == SignatureType.SHA256_WITH_RSA:
             pub_key = RSA.import_key(bytes(pub_key_bits))
             return verify_rsa(pub_key, sig_ptrs)
